@@ -23,6 +23,7 @@ THEOREMS = [
     dict(name="Snow.C16.labels_agree", clause="statistics-table label = trajectory-table label = the vial's class in getVialGroup", strength="full"),
     dict(name="Snow.C16.fall_filter_agrees", clause="Snowfall's group filter keeps exactly the vials of getVialGroup(group)", strength="full"),
     dict(name="Snow.C16.store_group_agrees", clause="a storeStates group request records exactly getVialGroup(group)", strength="full"),
+    dict(name="Snow.C16.store_thinning_in_group", clause="uniform / random thinning of a group request records only vials of the named group", strength="full"),
     dict(name="Snow.C16.trajLabel_upstream_counterexample", clause="before fix F7 the trajectory table labels a flat-shelf core vial 'side'", strength="refutation-of-old-code"),
     dict(name="Snow.C16.fallFilter_upstream_counterexample", clause="before fix K5 Snowfall's filter 'side' is empty on a 3x3x1 shelf while getVialGroup('side') is the edge set", strength="refutation-of-old-code"),
     dict(name="Snow.C16.nonvacuous", clause="hypotheses are satisfiable; all four classes are inhabited in a 3x3x3 pallet", strength="nonvacuity"),
@@ -42,7 +43,8 @@ ASSUMPTIONS = [
 RULE = ("EXHAUSTIVE over shapes: every shape n_x, n_y <= 7, n_z <= 4 (quick) / <= 12, <= 5 (thorough), both "
         "arrangements, x five code paths (getVialGroup for every single name, pairs and an unknown name; statistics "
         "table and trajectory table of a short real run; Snowfall accessors with group=...; storeStates group "
-        "requests); non-trivial when n_x, n_y >= 2; distinct by the JSON form of the case (corpus cases repeat box shapes)")
+        "requests, plain and thinned with uniform / random inside every group, with the trajectory-table labels of the "
+        "recorded subset); non-trivial when n_x, n_y >= 2; distinct by the JSON form of the case (corpus cases repeat box shapes)")
 EXPLANATION = ("Lean theorems for all shapes with n_x, n_y >= 2 about the group model + exhaustive comparison of the "
                "five code paths with the model over a box of shapes")
 PARALLEL = True
@@ -50,6 +52,10 @@ PARALLEL = True
 NAMES = ["corner", "edge", "core", "side", "all", "center"]
 QUERIES = [[n] for n in NAMES] + [["corner", "edge"], ["edge", "core"], ["side", "core", "corner"],
                                   ["corner", "all"], ["all", "foo"], ["foo"], ["corner", "foo"], ["Corner"], []]
+# recording requests that thin a group: the recorded vials must stay inside the named group
+THIN = [f"uniform.{g}.2" for g in ("corner", "edge", "core", "side", "center")] + \
+       [f"{g}_uniform_3" for g in ("edge", "core")] + \
+       [f"{g}_random_1" for g in ("corner", "edge", "core", "side")] + ["edge_random_2", "all_uniform_3"]
 FALL_QUERIES = [[n] for n in NAMES] + [["corner", "edge"], ["side", "core"], ["corner", "all"]]
 
 
@@ -139,10 +145,31 @@ def run_impl(case):
         except Exception as e:
             store[g] = {"raise": core.exc_class(e)}
     obs["store"] = store
+    # 5. thinning inside a group (uniform / random); the trajectory table of a short run must carry the group's label
+    from props.c18 import _recording
+
+    thin = {}
+    for sp in THIN:
+        log = []
+        try:
+            with _recording(log):
+                S3 = Snowflake(storeStates=sp, **kw)
+            rec = {"mask": [int(i) for i in np.where(S3._storageMask)[0]], "choices": [c["out"] for c in log]}
+            if rec["mask"]:
+                S3.run()
+                _, tdf = S3.to_frame(n_timeSteps=2)
+                t0 = tdf["Time"].min()
+                d = tdf[(tdf.state == "temperature") & (tdf.Time == t0)].sort_values("vial")
+                rec["labels"] = [_lab(v) for v in d["group"].tolist()]
+                rec["vials"] = [int(v) for v in d["vial"].tolist()]
+            thin[sp] = rec
+        except Exception as e:
+            thin[sp] = {"raise": core.exc_class(e), "choices": [c["out"] for c in log]}
+    obs["thin"] = thin
     return obs
 
 
-def run_model(drv, case):
+def run_model(drv, case, impl):
     sh = {"arr": case["arr"], "nx": case["nx"], "ny": case["ny"], "nz": case["nz"]}
     r = drv.call(dict(op="groups", queries=QUERIES, **sh))
     if "error" in r:
@@ -160,6 +187,14 @@ def run_model(drv, case):
             raise RuntimeError(r3["error"])
         store[g] = {"raise": r3["raise"]} if "raise" in r3 else r3["mask"]
     out["store"] = store
+    thin = {}
+    for sp in THIN:
+        ch = (impl.get("thin") or {}).get(sp, {}).get("choices", [])
+        r4 = drv.call(dict(op="store", kind="str", str=sp, choices=ch, **sh))
+        if "error" in r4:
+            raise RuntimeError(r4["error"])
+        thin[sp] = {"raise": r4["raise"]} if "raise" in r4 else {"mask": r4["mask"]}
+    out["thin"] = thin
     return out
 
 
@@ -197,6 +232,10 @@ def compare(case, impl, model):
     for g, m in model["store"].items():
         if impl["store"].get(g) != m:
             dis.append(f"storeStates={g!r}: impl {impl['store'].get(g)} vs model {m}")
+    for sp, m in model["thin"].items():
+        a = impl["thin"].get(sp, {})
+        if a.get("raise") != m.get("raise") or a.get("mask") != m.get("mask"):
+            dis.append(f"storeStates={sp!r}: impl {a.get('raise') or a.get('mask')} vs model {m.get('raise') or m.get('mask')}")
     return dis
 
 
@@ -311,6 +350,25 @@ def predicates(case, impl):
         if impl["store"].get(g) != want[g]:
             out.append(Failure(clause="store_group_agrees", key=f"store_group_agrees|storeStates|{g},{sc}",
                                detail=f"{where}: storeStates={g!r} records {impl['store'].get(g)}, class is {want[g]}"))
+    # thinning inside a group: recorded vials belong to the named group and are labelled as that group
+    for sp, rec in impl.get("thin", {}).items():
+        g = next(n for n in ("corner", "edge", "core", "side", "center", "all") if n in sp)
+        mode = "random" if "random" in sp else "uniform"
+        if "raise" in rec:
+            if want[g] and not (mode == "random" and int(sp.rsplit("_", 1)[1]) > len(want[g])):
+                out.append(Failure(clause="store_thinning_in_group", key=f"store_thinning_in_group|storeStates|raises,{mode},{sc}",
+                                   detail=f"{where}: storeStates={sp!r} raises {rec['raise']} although the group is {want[g]}"))
+            continue
+        if not set(rec["mask"]) <= set(want[g]) or (want[g] and not rec["mask"]):
+            out.append(Failure(clause="store_thinning_in_group", key=f"store_thinning_in_group|storeStates|{mode},{sc}",
+                               detail=f"{where}: storeStates={sp!r} records {rec['mask']}, the group {g!r} is {want[g]}"))
+        elif rec["mask"] and g != "all":
+            labs = rec.get("labels", [])
+            if rec.get("vials") != rec["mask"] + [] or any(
+                    (not isinstance(l, str)) or canon(arr, nz, l) != canon(arr, nz, g) for l in labs):
+                out.append(Failure(clause="store_thinning_in_group", key=f"store_thinning_in_group|to_frame.traj|{mode},{sc}",
+                                   detail=f"{where}: storeStates={sp!r} records {rec['mask']}; trajectory table has vials "
+                                          f"{rec.get('vials')} labelled {labs}"))
     return out
 
 
